@@ -355,6 +355,41 @@ pub fn run(tier: Tier) -> ! {
     let f5: Vec<Built> = edge_family().into_iter().map(|(desc, spec)| Built { spec, desc }).collect();
     fam_counts.insert("F5-edge-shapes".into(), json!(f5.len()));
     f5.par_iter().for_each(|b| check_model(&chk, b, &texts, true));
+    // F6: scale-up spot family — 8-12 interacting entries over all six character types, long texts
+    {
+        let alpha = ['1', 'a', 'あ', 'ア', '亜', '。', '𠀋', 'Ｚ'];
+        let mut entries = vec![];
+        for (i, w) in ["a1", "1", "あア", "亜。", "ア", "a", "𠀋亜", "Ｚa", "。"].iter().enumerate() {
+            entries.push(if i % 2 == 0 { Entry::Char(w.to_string()) } else { Entry::Dict(w.to_string()) });
+        }
+        for t in [vec![1u8], vec![2, 1], vec![3, 4], vec![5, 6, 5], vec![4], vec![6, 6], vec![2, 2, 2, 2]] {
+            entries.push(Entry::Type(t));
+        }
+        let mut ms6 = vec![];
+        for (wc, wt) in [(2u8, 2u8), (3, 3), (2, 5), (7, 3), (4, 9)] {
+            for k in [8usize, 12, entries.len()] {
+                let es: Vec<Entry> = entries.iter().take(k).filter(|e| models::admissible(e, wc, wt)).cloned().collect();
+                for scheme in 0..2u8 {
+                    for tags in [false, true] {
+                        ms6.push(mk(&es, wc, wt, 1, scheme, tags));
+                    }
+                }
+            }
+        }
+        // long texts: every rotation of the alphabet repeated, plus runs
+        let mut t6: Vec<Vec<char>> = vec![];
+        for rot in 0..alpha.len() {
+            for len in [9usize, 16, 33, 64] {
+                t6.push((0..len).map(|i| alpha[(i * (rot + 1) + rot) % alpha.len()]).collect());
+            }
+        }
+        for &c in &alpha {
+            t6.push(vec![c; 20]);
+        }
+        fam_counts.insert("F6-scale-up".into(), json!(ms6.len()));
+        chk.set("f6_texts", json!(t6.len()));
+        ms6.par_iter().for_each(|b| check_model(&chk, b, &t6, true));
+    }
     let (ms, t3) = f3(tier);
     fam_counts.insert("F3-large-windows".into(), json!(ms.len()));
     chk.set("f3_texts", json!(t3.len()));
